@@ -308,7 +308,10 @@ func (engine *Engine) CommitBlock(header *block.Header, conflicts uint32, isPack
 		}
 		engine.caches.quality.Add(header.ID(), state.Quality)
 
-		if state.Committed && state.Quality > 1 {
+		// Skip when the block is in finalized's epoch or earlier (a late sibling of an
+		// already finalized epoch): nothing can be finalized by it, and the search
+		// below would miss the target. Same guard as in Resync.
+		if state.Committed && state.Quality > 1 && getCheckPoint(header.Number()) > block.Number(engine.Finalized()) {
 			id, err := engine.findCheckpointByQuality(state.Quality-1, engine.Finalized(), header.ID())
 			if err != nil {
 				return err
